@@ -83,6 +83,11 @@ Definition spec_levels (L : Z) (pre cyc : list item) : Z :=
 (* a program that really recurses: every period takes something and asks for something *)
 Definition recursive (cyc : list item) : Prop := 1 <= weight cyc /\ top cyc <> None.
 
+(* what an open activation has been charged *)
+Definition cost (a : act) : Z :=
+  match a with AMacro _ => 6 | AInclude _ => 10 | ABlock _ => 6 | ASuper _ => 6 end.
+Fixpoint wsum (l : list act) : Z := match l with [] => 0 | a :: r => cost a + wsum r end.
+
 (* (2) the stack budget *)
 Definition ACTIVATION_CHARGE : Z := 6.
 Definition max_nesting (limit : Z) : Z := 1 + (limit + 4) / ACTIVATION_CHARGE.
@@ -92,5 +97,5 @@ Definition stack_fits (stack reserve B nesting : Z) : Prop := reserve + B * nest
 
 Definition STACK_2MIB : Z := 2 * 1024 * 1024.
 (* the calibration the measured part of the check re-establishes on every run *)
-Definition FRAME_BYTES_DEBUG : Z := 16384.
+Definition FRAME_BYTES_DEBUG : Z := 20480.
 Definition RESERVE_BYTES : Z := 256 * 1024.
